@@ -443,6 +443,32 @@ func (x *TExec) opConnectionBind(st *TStep) { //nolint:cyclop
 		}
 	}
 	now := time.Now()
+	if st.Side == "hangup" && !onCtrl && !tied && tc != nil && !tc.gone && !tc.boundEver && !tc.limbo && c == owner && owner.alloc != nil &&
+		owner.alloc.user == Users[ui].Name && now.Before(tc.deadline) && !tc.peerEnd.IsClosed() {
+		// the client sends a valid bind and closes the data connection at once: the server
+		// cannot deliver its answer. Whether it counts the connection as bound or not, the peer
+		// connection may not outlive the bind deadline.
+		_, _ = dc.Write(x.sign(c, ui, m))
+		_ = dc.Close()
+		x.settle()
+		if tc.srvEnd.IsClosed() {
+			tc.gone = true // the server gave the pair up at once
+			x.St.inc("tcp:bind-then-hangup:closed-at-once")
+		} else {
+			tc.limbo = true // then the bind deadline is the latest
+			x.St.inc("tcp:bind-then-hangup:left-pending")
+		}
+		x.St.inc("tcp:bind-then-hangup")
+
+		return
+	}
+	if tc != nil && tc.limbo {
+		// (nothing is known about its state; a later bind is not judged)
+		_ = dc.Close()
+		x.settle()
+
+		return
+	}
 	resp, _ := x.request(c, dc, &rbuf, ui, m)
 	if x.stop {
 		return
@@ -670,7 +696,7 @@ func (x *TExec) check(ctx string) { //nolint:cyclop
 				x.fail([]string{"C16", "C15"}, "data-connection-not-closed", "%s: the client data connection of %#x is still open at the server after the peer side ended", ctx, tc.id)
 
 				return
-			case !tc.gone && tc.srvEnd.IsClosed() && !tc.peerEnd.IsClosed():
+			case !tc.gone && !tc.limbo && tc.srvEnd.IsClosed() && !tc.peerEnd.IsClosed():
 				x.fail([]string{"C16"}, "peer-connection-closed-early", "%s: the server closed pending/bound peer connection %#x (%v), age %v", ctx, tc.id, tc.peer, 30*time.Second-time.Until(tc.deadline))
 
 				return
